@@ -9,8 +9,8 @@ META = dict(
               "with a conflict outcome, model-checked by TLC over all (old, new, context, perturbation) of a small line "
               "alphabet; TLC's case table executed on the real internal_diff / parse_patches / as_bytes / stats_values / "
               "iter_patched / iter_patched_from_hunks; TLC judges the recorded hunks and outcomes with the same laws",
-    level_text="Exhaustive over all pairs of texts of at most 2 (3 in thorough) lines over {a, b, '-- x'} with and without "
-               "final newline, a second alphabet with empty lines and '++ y' up to 2 (3) lines, and a 7-line text "
+    level_text="Exhaustive over all pairs of texts of at most 2 lines over {a, b, '-- x', empty line} (thorough: 3 lines over "
+               "{a, b, '-- x'} and over {a, empty line, '++ y'}) with and without final newline, and a 7-line text "
                "against its single and double point edits (multi-hunk diffs), each with context 0, 1 and 3 and with "
                "every single-line substitution / insertion / deletion / truncation of the old text. TLC proves the laws "
                "on a reference diff and the transcribed patcher; on the recorded side TLC runs the REAL hunks through the "
@@ -32,6 +32,7 @@ SIG_RUNTIME = "conflict:iter_patched_from_hunks/next(orig_lines):old-text-ends-e
 
 FULL = {"Toks": '{"a","b","d"}', "NoNl": '{"a!","b!","d!"}'}
 ALT = {"Toks": '{"a","e","p"}', "NoNl": '{"p!"}'}
+QUICK = {"Toks": '{"a","b","d","e"}', "NoNl": '{"a!","d!"}'}
 
 
 def toks(lines):
@@ -138,14 +139,17 @@ def run(ctx):
     env.init()
     import re
     q = ctx.quick
-    fams = [("short, full alphabet", dict(FULL, MaxLen=2 if q else 3, Ctxs="{0,1,3}", LongLen=7, LongEdits='"subst2"' if q else '"all2"')),
-            ("short, empty lines and +++ lookalike", dict(ALT, MaxLen=2 if q else 3, Ctxs="{0,1,3}", LongLen=7, LongEdits='"none"'))]
+    if q:
+        fams = [("short, {a, b, '-- x', empty line}", dict(QUICK, MaxLen=2, Ctxs="{0,1,3}", LongLen=7, LongEdits='"subst2"'))]
+    else:
+        fams = [("short, full alphabet", dict(FULL, MaxLen=3, Ctxs="{0,1,3}", LongLen=7, LongEdits='"all2"')),
+                ("short, empty lines and +++ lookalike", dict(ALT, MaxLen=3, Ctxs="{0,1,3}", LongLen=7, LongEdits='"none"'))]
     cases = []
     for name, consts in fams:
         got = table.generate(ctx, "PatchApplyGen", consts, label="PatchApplyGen " + name)
         ctx.cov.setdefault("families", []).append({"family": name, "cases": len(got)})
         cases.extend(got)
-    small = dict(FULL, MaxLen=2, Ctxs="{0,1}", LongLen=7, LongEdits='"none"')
+    small = dict(FULL, MaxLen=1, Ctxs="{0}", LongLen=7, LongEdits='"none"')
     res = tlc.run(ctx, "PatchApplyGen", cfg_text=table.cfg(small, WITNESSES), extra=("-continue",), allow_violation=True, workers=2)
     found = set(re.findall(r"Invariant (\w+) is violated", res["output"]))
     if set(WITNESSES) - found:
@@ -153,15 +157,16 @@ def run(ctx):
     ctx.add_tlc(res, "witnesses")
     if not cases:
         ctx.machinery("empty case table")
-    core.fork_map(ctx, _chunk, cases, nproc=4 if q else 16, chunks_per_proc=1)
+    core.fork_map(ctx, _chunk, cases, nproc=8 if q else 16, chunks_per_proc=1)
     if sum(x["rows"] for x in ctx.collected) != len(cases):
         ctx.machinery("judged %d of %d cases" % (sum(x["rows"] for x in ctx.collected), len(cases)))
     ctx.cov["multi_hunk_diffs"] = sum(x["multi_hunk_diffs"] for x in ctx.collected)
     if not ctx.cov["multi_hunk_diffs"]:
         ctx.machinery("no multi-hunk diff was produced by internal_diff")
     ctx.cov["exhaustive"] = True
-    ctx.rule("all (old, new, context in {0,1,3}) with old/new well-formed texts of at most %d lines over {a, b, '-- x'} "
-             "(+ variants without final newline), of at most %d lines over {a, empty line, '++ y'}, and a 7-line text "
-             "against its %s point edits; for each case every single-line substitution / insertion / deletion / "
-             "truncation of old is applied too (an evaluation = one application); non-trivial = old differs from new"
-             % (2 if q else 3, 2 if q else 3, "single and double-substitution" if q else "single and double"))
+    ctx.rule("all (old, new, context in {0,1,3}) with old/new well-formed texts (only the last line may lack its newline) "
+             + ("of at most 2 lines over {a, b, '-- x', empty line}" if q else
+                "of at most 3 lines over {a, b, '-- x'} and over {a, empty line, '++ y'}")
+             + ", and a 7-line text against its %s point edits; for each case every single-line substitution / insertion / "
+             "deletion / truncation of old is applied too (an evaluation = one application); non-trivial = old differs "
+             "from new" % ("single and double-substitution" if q else "single and double"))
